@@ -47,7 +47,7 @@ def resolve(program, std_program, c):
     return f"{cname}.{mname} is bound to an expression the extractor does not resolve: {ast.dump(node)[:80]}"
 
 
-def verify_contracts(section, contracts, theory_cls, mods, timeout_ms=20000, std=False, only=None):
+def verify_contracts(section, contracts, theory_cls, mods, timeout_ms=20000, std=False, only=None, jobs=16):
     """Verify every non-assumed contract; record obligations in `section`."""
     program = Program(mods)
     std_program = Program([STDLIB]) if std else None
@@ -63,6 +63,7 @@ def verify_contracts(section, contracts, theory_cls, mods, timeout_ms=20000, std
         if err:
             section.obl(f"{c.target}:resolves", FAILED, "ground", 0, err, function=c.target)
             c.fn = None
+    tasks = []
     for c in contracts:
         if c.fn is None:
             continue
@@ -72,27 +73,46 @@ def verify_contracts(section, contracts, theory_cls, mods, timeout_ms=20000, std
         if only and only not in c.target:
             continue
         cases = c.cases if getattr(c, "cases", None) else [("", c.params)]
-        t0 = time.time()
-        total = {}
         for cname, params in cases:
-            qual = c.target + (f"[{cname}]" if cname else "")
-            fv = FuncVC(qual, c.fn, c, theory, prover, cls_name=c.cls_name, def_cls=c.def_cls,
-                        case_params=params, case_name=cname)
-            try:
-                res = fv.run()
-            except Untranslatable as u:
-                res = {f"{qual}:translate": (UNTRANSLATABLE, str(u), 0)}
-            if not res:
-                res = {f"{qual}:no-obligations": (FAILED, "vacuity guard: the function generated no obligation", 0)}
-            for k, v in res.items():
-                total[k] = v
-            for oname, (key, what, data) in getattr(fv, "replays", []):
-                section.violation(key, what, data, obligation=oname, concrete=True)
-        backend = f"smt:z3-{_z3v()}"
-        for name, (status, detail, dt) in sorted(total.items()):
+            tasks.append((c, cname, params))
+    global _TASKS, _THEORY, _PROVER
+    _TASKS, _THEORY, _PROVER = tasks, theory, prover
+    if jobs > 1 and len(tasks) > 1:
+        import multiprocessing as mp
+        ctx = mp.get_context("fork")
+        with ctx.Pool(min(jobs, len(tasks))) as pool:
+            outs = pool.map(_run_task, range(len(tasks)), chunksize=1)
+    else:
+        outs = [_run_task(i) for i in range(len(tasks))]
+    backend = f"smt:z3-{_z3v()}"
+    for (c, cname, params), (res, replays, secs) in zip(tasks, outs):
+        for name, (status, detail, dt) in sorted(res.items()):
             section.obl(name, status, backend, dt, detail, function=c.target)
-    section.seconds += prover.time
+        for oname, (key, what, data) in replays:
+            section.violation(key, what, data, obligation=oname, concrete=True)
+        section.seconds += secs
     return program, theory
+
+
+_TASKS = _THEORY = _PROVER = None
+
+
+def _run_task(i):
+    c, cname, params = _TASKS[i]
+    qual = c.target + (f"[{cname}]" if cname else "")
+    _PROVER.time = 0.0
+    fv = FuncVC(qual, c.fn, c, _THEORY, _PROVER, cls_name=c.cls_name, def_cls=c.def_cls,
+                case_params=params, case_name=cname)
+    try:
+        res = fv.run()
+    except Untranslatable as u:
+        res = {f"{qual}:translate": (UNTRANSLATABLE, str(u), 0)}
+    except Exception as e:          # an engine crash on one function is reported, never a verdict
+        import traceback
+        res = {f"{qual}:engine-error": (UNTRANSLATABLE, "engine error: " + traceback.format_exc(limit=6), 0)}
+    if not res:
+        res = {f"{qual}:no-obligations": (FAILED, "vacuity guard: the function generated no obligation", 0)}
+    return res, list(getattr(fv, "replays", [])), _PROVER.time
 
 
 def _z3v():
